@@ -151,4 +151,331 @@ end
 
 end exactIn
 
+/-! ## T3 — exact-out: executing the quoted result tree -/
+
+section exactOut
+variable {PS : Type} (M : PoolSpec PS) (sender : Addr)
+
+mutual
+/-- the result tree quoted (on any world `w0`) for a valid route, executed on any world: if the execution succeeds
+    the sender received exactly the amount asked in the output denom and paid exactly the quoted input -/
+theorem inspectOut_moved (hs : ∀ id, sender ≠ poolAddr id) (w0 : World PS) : (r : Route) → ∀ (a res : Int) (rr : RResult) (u : Unit) (w w' : World PS),
+    validateRec r = true → inspect (calcPoolOut M w0) genOut true r a () = .ok (res, rr, u) →
+    execOut M sender rr w = .ok w' → Moved w.bank w'.bank sender r.din res r.dout a
+  | .pool din dout id => by
+    intro a res rr u w w' _ h hx
+    simp only [inspect] at h
+    obtain ⟨⟨ain, u1⟩, h1, h⟩ := bind_ok h
+    simp only [genOut, Res.ok.injEq, Prod.mk.injEq] at h
+    obtain ⟨e1, e2, _⟩ := h
+    subst e1 e2
+    simp only [execOut] at hx
+    obtain ⟨⟨ain', w1⟩, h2, hx⟩ := bind_ok hx
+    by_cases he : ain' ≠ ain
+    · simp [he] at hx
+    · simp only [he, if_false, Res.ok.injEq] at hx
+      subst hx
+      have he' : ain' = ain := by omega
+      subst he'
+      exact (swapPoolOut_ok M h2 (hs id)).2.2.2.1
+  | .series din dout rs => by
+    intro a res rr u w w' hv h hx
+    simp only [inspect, if_true] at h
+    obtain ⟨⟨x, rrs, u1⟩, h1, h⟩ := bind_ok h
+    simp only [genOut, Res.ok.injEq, Prod.mk.injEq] at h
+    obtain ⟨e1, e2, _⟩ := h
+    subst e1 e2
+    simp only [execOut] at hx
+    simp only [validateRec, Bool.and_eq_true] at hv
+    exact seriesOut_moved hs w0 rs din dout a x rrs u1 w w' hv.2 h1 hx
+  | .parallel din dout rs ws => by
+    intro a res rr u w w' hv h hx
+    simp only [inspect] at h
+    cases hw : parseWeights ws with
+    | none => simp [hw] at h
+    | some ds =>
+      simp only [hw] at h
+      by_cases hl : ds.length = rs.length
+      swap
+      · simp only [ne_eq, hl, not_false_eq_true, if_true] at h
+        split at h <;> try split at h
+        all_goals simp at h
+      · simp only [ne_eq, hl, not_true_eq_false, if_false] at h
+        obtain ⟨amounts, h0, h⟩ := bind_ok h
+        obtain ⟨⟨x, rrs, u1⟩, h1, h⟩ := bind_ok h
+        simp only [genOut, Res.ok.injEq, Prod.mk.injEq] at h
+        obtain ⟨e1, e2, _⟩ := h
+        subst e1 e2
+        simp only [execOut] at hx
+        simp only [validateRec, Bool.and_eq_true] at hv
+        obtain ⟨hsum, hlen⟩ := split_sum_length h0
+        have := parOut_moved hs w0 rs ws din dout amounts x rrs u1 w w' hv.2 h1 hx
+        rw [List.take_of_length_le (by omega), hsum] at this
+        exact this
+  | .nil _ _ => by
+    intro a res rr u w w' hv _ _
+    simp [validateRec] at hv
+theorem seriesOut_moved (hs : ∀ id, sender ≠ poolAddr id) (w0 : World PS) : (rs : List Route) → ∀ (cur dout : Denom) (a res : Int) (rrs : List RResult) (u : Unit) (w w' : World PS),
+    validateSeries cur dout rs = true → inspectSeriesB (calcPoolOut M w0) genOut true rs a () = .ok (res, rrs, u) →
+    execOutL M sender rrs w = .ok w' → Moved w.bank w'.bank sender cur res dout a
+  | [] => by
+    intro cur dout a res rrs u w w' hv h hx
+    simp only [inspectSeriesB, Res.ok.injEq, Prod.mk.injEq] at h
+    obtain ⟨e1, e2, _⟩ := h
+    subst e1 e2
+    simp only [execOutL, Res.ok.injEq] at hx
+    subst hx
+    simp only [validateSeries, beq_iff_eq] at hv
+    exact Moved.same _ _ _ _ _ hv
+  | r :: rs => by
+    intro cur dout a res rrs u w w' hv h hx
+    simp only [inspectSeriesB] at h
+    obtain ⟨⟨x, rrs', u1⟩, h1, h⟩ := bind_ok h
+    obtain ⟨⟨y, rr, u2⟩, h2, h⟩ := bind_ok h
+    simp only [Res.ok.injEq, Prod.mk.injEq] at h
+    obtain ⟨e1, e2, _⟩ := h
+    subst e1 e2
+    simp only [execOutL] at hx
+    obtain ⟨w1, hx1, hx2⟩ := bind_ok hx
+    simp only [validateSeries, Bool.and_eq_true, beq_iff_eq] at hv
+    obtain ⟨⟨hv1, hd⟩, hv2⟩ := hv
+    have m1 := inspectOut_moved hs w0 r x y rr u2 w w1 hv1 h2 hx1
+    have m2 := seriesOut_moved hs w0 rs r.dout dout a x rrs' u1 w1 w' hv2 h1 hx2
+    rw [hd] at m1
+    exact m1.trans m2
+theorem parOut_moved (hs : ∀ id, sender ≠ poolAddr id) (w0 : World PS) : (rs : List Route) → ∀ (ws : List String) (din dout : Denom) (amounts : List Int) (res : Int) (rrs : List RResult) (u : Unit) (w w' : World PS),
+    validatePar din dout rs ws = true → inspectPar (calcPoolOut M w0) genOut true rs amounts () = .ok (res, rrs, u) →
+    execOutL M sender rrs w = .ok w' → Moved w.bank w'.bank sender din res dout (amounts.take rs.length).sum
+  | [] => by
+    intro ws din dout amounts res rrs u w w' _ h hx
+    simp only [inspectPar, Res.ok.injEq, Prod.mk.injEq] at h
+    obtain ⟨e1, e2, _⟩ := h
+    subst e1 e2
+    simp only [execOutL, Res.ok.injEq] at hx
+    subst hx
+    simpa using Moved.zero _ _ _ _
+  | r :: rs => by
+    intro ws din dout amounts res rrs u w w' hv h hx
+    cases amounts with
+    | nil => simp [inspectPar] at h
+    | cons a as =>
+      cases ws with
+      | nil => simp [validatePar] at hv
+      | cons wt ws =>
+        simp only [inspectPar] at h
+        obtain ⟨⟨x, rr, u1⟩, h1, h⟩ := bind_ok h
+        obtain ⟨⟨y, rrs', u2⟩, h2, h⟩ := bind_ok h
+        simp only [Res.ok.injEq, Prod.mk.injEq] at h
+        obtain ⟨e1, e2, _⟩ := h
+        subst e1 e2
+        simp only [execOutL] at hx
+        obtain ⟨w1, hx1, hx2⟩ := bind_ok hx
+        simp only [validatePar, Bool.and_eq_true, beq_iff_eq] at hv
+        obtain ⟨⟨⟨⟨hv1, hdi⟩, hdo⟩, _⟩, hv2⟩ := hv
+        have m1 := inspectOut_moved hs w0 r a x rr u1 w w1 hv1 h1 hx1
+        have m2 := parOut_moved hs w0 rs ws din dout as y rrs' u2 w1 w' hv2 h2 hx2
+        rw [hdi, hdo] at m1
+        simpa using m1.par m2
+end
+
+end exactOut
+
+/-! ## T4 — the two messages: stated amounts, limits, interface fee, response, atomicity -/
+
+section messages
+variable {PS : Type} (M : PoolSpec PS)
+open Sunrise.Gen.KernelsSwap
+
+/-- Msg/SwapExactAmountIn that succeeds: the route was valid with no pool reused, the sender was debited exactly
+    `amount_in` of the input denom and credited exactly `response.amount_out ≥ min_amount_out` of the output denom (net
+    of the interface fee), no other balance of the sender changed, the provider received exactly `response.fee` in the
+    final step, and the response's result carries (denom_in, amount_in) and (denom_out, amount_out + fee). -/
+theorem msgSwapIn_honours (rate : Dec) (sender : Addr) (prov : Option Addr) (r : Route) (a minOut : Int)
+    (w w' : World PS) (resp : Resp)
+    (hs : ∀ id, sender ≠ poolAddr id) (hp : ∀ p, prov = some p → sender ≠ p)
+    (h : msgSwapIn M rate sender prov r a minOut w = (.ok resp, w')) :
+    validate r = true ∧ 0 < a ∧ 0 < minOut ∧ minOut ≤ resp.amountOut ∧ 0 ≤ resp.fee ∧
+    Moved w.bank w'.bank sender r.din a r.dout resp.amountOut ∧
+    resp.result.tin = ⟨r.din, a⟩ ∧ resp.result.tout = ⟨r.dout, resp.amountOut + resp.fee⟩ ∧
+    (prov = none → resp.fee = 0) ∧
+    (∃ w1 : World PS, Moved w.bank w1.bank sender r.din a r.dout (resp.amountOut + resp.fee) ∧
+      ∀ p, prov = some p → ∀ d, w'.bank.bal p d = w1.bank.bal p d + δ r.dout resp.fee d) := by
+  unfold msgSwapIn at h
+  by_cases hv : validate r = true
+  swap
+  · simp [hv] at h
+  by_cases ha : a ≤ 0
+  · simp [hv, ha] at h
+  by_cases hm : minOut ≤ 0
+  · simp [hv, ha, hm] at h
+  simp only [hv, ha, hm, Bool.not_true, Bool.false_eq_true, if_false] at h
+  cases hk : keeperSwapIn M rate sender prov r a minOut w with
+  | err c => simp [hk] at h
+  | panic k => simp [hk] at h
+  | ok x =>
+    obtain ⟨rr, fee, wf⟩ := x
+    simp only [hk, Prod.mk.injEq, Res.ok.injEq] at h
+    obtain ⟨e1, e2⟩ := h
+    subst e1 e2
+    unfold keeperSwapIn at hk
+    obtain ⟨⟨rr1, w1⟩, h1, hk⟩ := bind_ok hk
+    unfold swapRouteIn at h1
+    obtain ⟨⟨res, rr2, w2⟩, h2, h1⟩ := bind_ok h1
+    simp only [Res.ok.injEq, Prod.mk.injEq] at h1
+    obtain ⟨e1, e2⟩ := h1
+    subst e1 e2
+    have hvr : validateRec r = true := by unfold validate at hv; simp only [Bool.and_eq_true] at hv; exact hv.1
+    have mv := inspectIn_moved M sender hs r a w res rr2 w2 hvr h2
+    obtain ⟨hti, hto⟩ := inspect_result_in _ _ r a w res rr2 w2 h2
+    simp only at hk
+    by_cases hlim : (feeIn prov.isSome rate rr2.tout.amount).1 < minOut
+    · simp [hlim] at hk
+    · simp only [hlim, if_false] at hk
+      obtain ⟨b2, h3, hk⟩ := bind_ok hk
+      simp only [Res.ok.injEq, Prod.mk.injEq] at hk
+      obtain ⟨e1, e2, e3⟩ := hk
+      subst e1 e2 e3
+      have hgross : rr2.tout.amount = res := by rw [hto]
+      -- the fee pair: net = gross − fee in both cases
+      have hnet : (feeIn prov.isSome rate res).1 = res - (feeIn prov.isSome rate res).2 ∧ (prov = none → (feeIn prov.isSome rate res).2 = 0) := by
+        unfold feeIn
+        cases prov with
+        | none => simp
+        | some p => simp [feeIn_interfaceFee]
+      rw [hgross] at h3 hlim
+      rw [hto] at h3
+      simp only at h3
+      obtain ⟨f0, ms, mp⟩ := payFee_ok h3 hp hnet.2
+      refine ⟨hv, by omega, by omega, ?_, ?_, ?_, hti, ?_, ?_, ⟨w2, ?_, ?_⟩⟩
+      · simp only [hgross]; omega
+      · simp only [hgross]; exact f0
+      · intro d
+        simp only [hgross]
+        have := mv d; have := ms d
+        have e : δ r.dout (res - (feeIn prov.isSome rate res).2) d = δ r.dout res d - δ r.dout (feeIn prov.isSome rate res).2 d := by
+          unfold δ; split <;> omega
+        rw [e]; omega
+      · rw [hto]; simp only [hgross]; congr 1; omega
+      · simp only [hgross]; exact hnet.2
+      · simp only [hgross]
+        have : res - (feeIn prov.isSome rate res).2 + (feeIn prov.isSome rate res).2 = res := by omega
+        rw [this]; exact mv
+      · simp only [hgross]; exact mp
+
+/-- Msg/SwapExactAmountOut that succeeds: the sender was credited exactly `amount_out` of the output denom (after
+    paying the interface fee out of the gross output), debited exactly the quoted input `≤ max_amount_in` of the input
+    denom, no other balance of the sender changed; the response is the quote computed on the pre-state. -/
+theorem msgSwapOut_honours (rate : Dec) (sender : Addr) (prov : Option Addr) (r : Route) (maxIn a : Int)
+    (w w' : World PS) (resp : Resp)
+    (hs : ∀ id, sender ≠ poolAddr id) (hp : ∀ p, prov = some p → sender ≠ p)
+    (h : msgSwapOut M rate sender prov r maxIn a w = (.ok resp, w')) :
+    validate r = true ∧ 0 < a ∧ resp.amountOut = a ∧ resp.result.tin.amount ≤ maxIn ∧ 0 ≤ resp.fee ∧
+    Moved w.bank w'.bank sender r.din resp.result.tin.amount r.dout a ∧
+    resp.result.tin.denom = r.din ∧ resp.result.tout = ⟨r.dout, a + resp.fee⟩ ∧
+    (prov = none → resp.fee = 0) ∧
+    queryOut M rate prov.isSome r a w = .ok (resp.result, resp.fee, resp.result.tin.amount) := by
+  unfold msgSwapOut at h
+  by_cases hv : validate r = true
+  swap
+  · simp [hv] at h
+  by_cases hm : maxIn ≤ 0
+  · simp [hv, hm] at h
+  by_cases ha : a ≤ 0
+  · simp [hv, ha, hm] at h
+  simp only [hv, ha, hm, Bool.not_true, Bool.false_eq_true, if_false] at h
+  cases hk : keeperSwapOut M rate sender prov r maxIn a w with
+  | err c => simp [hk] at h
+  | panic k => simp [hk] at h
+  | ok x =>
+    obtain ⟨rr, fee, wf⟩ := x
+    simp only [hk, Prod.mk.injEq, Res.ok.injEq] at h
+    obtain ⟨e1, e2⟩ := h
+    subst e1 e2
+    unfold keeperSwapOut at hk
+    obtain ⟨⟨rr1, fee1⟩, h1, hk⟩ := bind_ok hk
+    obtain ⟨w1, hx, hk⟩ := bind_ok hk
+    by_cases hlim : rr1.tin.amount > maxIn
+    · simp [hlim] at hk
+    · simp only [hlim, if_false] at hk
+      obtain ⟨b2, h3, hk⟩ := bind_ok hk
+      simp only [Res.ok.injEq, Prod.mk.injEq] at hk
+      obtain ⟨e1, e2, e3⟩ := hk
+      subst e1 e2 e3
+      have hq : queryOut M rate prov.isSome r a w = .ok (rr1, fee1, rr1.tin.amount) := by
+        unfold queryOut; rw [h1]; rfl
+      unfold keeperCalcOut at h1
+      obtain ⟨⟨gross, fee2⟩, hf, h1⟩ := bind_ok h1
+      obtain ⟨rr2, hc, h1⟩ := bind_ok h1
+      simp only [Res.ok.injEq, Prod.mk.injEq] at h1
+      obtain ⟨e1, e2⟩ := h1
+      subst e1 e2
+      unfold calcRouteOut at hc
+      obtain ⟨⟨res, rr3, u⟩, hi, hc⟩ := bind_ok hc
+      simp only [Res.ok.injEq] at hc
+      subst hc
+      have hvr : validateRec r = true := by unfold validate at hv; simp only [Bool.and_eq_true] at hv; exact hv.1
+      have mv := inspectOut_moved M sender hs w r gross res rr3 u w w1 hvr hi hx
+      obtain ⟨hti, hto⟩ := inspect_result_out _ _ r gross () res rr3 u hi
+      have hfee : gross - fee2 = a ∧ (prov = none → fee2 = 0) := by
+        unfold feeOut at hf
+        cases prov with
+        | none => simp at hf; obtain ⟨e1, e2⟩ := hf; subst e1 e2; simp
+        | some p =>
+          simp only [Option.isSome_some, Bool.not_true, Bool.false_eq_true, if_false] at hf
+          split at hf
+          · simp at hf
+          · simp only [Res.ok.injEq, Prod.mk.injEq, feeOut_interfaceFee] at hf
+            obtain ⟨e1, e2⟩ := hf; subst e1 e2; simp
+      rw [hto] at h3
+      simp only at h3
+      obtain ⟨f0, ms, _⟩ := payFee_ok h3 hp hfee.2
+      have hres : rr3.tin.amount = res := by rw [hti]
+      refine ⟨hv, by omega, ?_, ?_, f0, ?_, by rw [hti], ?_, hfee.2, hq⟩
+      · show rr3.tout.amount - fee2 = a
+        rw [hto]; simp only; omega
+      · show rr3.tin.amount ≤ maxIn
+        omega
+      · intro d
+        show b2.bal sender d = w.bank.bal sender d - δ r.din rr3.tin.amount d + δ r.dout a d
+        have := mv d; have := ms d
+        have e : δ r.dout a d = δ r.dout gross d - δ r.dout fee2 d := by
+          unfold δ; split <;> omega
+        rw [hres, e]; omega
+      · show rr3.tout = ⟨r.dout, a + fee2⟩
+        rw [hto]; congr 1; omega
+
+/-- a message that does not succeed changes nothing (the keeper's partial effects are dropped with the transaction) -/
+theorem msg_atomic (rate : Dec) (sender : Addr) (prov : Option Addr) (r : Route) (x y : Int) (w : World PS) :
+    (¬ (msgSwapIn M rate sender prov r x y w).1.isOk → (msgSwapIn M rate sender prov r x y w).2 = w) ∧
+    (¬ (msgSwapOut M rate sender prov r x y w).1.isOk → (msgSwapOut M rate sender prov r x y w).2 = w) := by
+  constructor
+  · unfold msgSwapIn
+    split; · simp
+    split; · simp
+    split; · simp
+    split <;> simp [Res.isOk]
+  · unfold msgSwapOut
+    split; · simp
+    split; · simp
+    split; · simp
+    split <;> simp [Res.isOk]
+
+/-- limits: a result below `min_amount_out` (exact-in) or above `max_amount_in` (exact-out) is an error -/
+theorem limits (rate : Dec) (sender : Addr) (prov : Option Addr) (r : Route) (w : World PS) :
+    (∀ a minOut rr w1, swapRouteIn M sender r a w = .ok (rr, w1) →
+      (feeIn prov.isSome rate rr.tout.amount).1 < minOut → keeperSwapIn M rate sender prov r a minOut w = .err "lower-than-min-out") ∧
+    (∀ a maxIn rr fee w1, keeperCalcOut M rate prov.isSome r a w = .ok (rr, fee) → execOut M sender rr w = .ok w1 →
+      rr.tin.amount > maxIn → keeperSwapOut M rate sender prov r maxIn a w = .err "higher-than-max-in") := by
+  constructor
+  · intro a minOut rr w1 h hl
+    unfold keeperSwapIn
+    rw [h]
+    simp [Res.bind, hl]
+  · intro a maxIn rr fee w1 h hx hl
+    unfold keeperSwapOut
+    rw [h]
+    simp [Res.bind, hx, hl]
+
+end messages
+
 end Sunrise.C03
